@@ -139,6 +139,17 @@ void verif_event(int kind, uint64_t a, uint64_t b, uint64_t c)
 {
 	verif_event_raw(kind, a, b, c);
 
+	/* modes 4 and 5 stall the submitting thread right after it handed an item to the pool (workers get ahead of it) */
+	if (delay_mode >= 4 && kind == VEV_POOL_SUBMITTED) {
+		uint64_t r = rnd(delay_seed);
+		unsigned us = delay_mode == 4 ? 150 : (unsigned)((r >> 8) % 600);
+		if (us) {
+			struct timespec ts = { 0, (long)us * 1000 };
+			nanosleep(&ts, NULL);
+			verif_event_raw(VEV_DELAY, 999, us, 0);
+		}
+		return;
+	}
 	/* delays only at the two points that are outside the pool mutex */
 	if (delay_mode >= 0 && (kind == VEV_POOL_TAKE || kind == VEV_POOL_DONE)) {
 		uint64_t r = rnd(delay_seed);
